@@ -166,7 +166,7 @@ def handler(*a, **k):
 
 class C12(core.Property):
     id = "C12"
-    modules = ["Proofs.CapsProofs", "Props.C12"]
+    modules = ["Proofs.CapsProofs", "Proofs.CapsHistoryProofs", "Props.C12"]
     obligations = ["run_with_sem", "fold_sem", "final_heap_at", "refinement", "refinement_shape", "field_iff",
                    "field_registered_options", "fileop_iff", "semantic_tokens_iff", "diagnostic_iff", "rename_rule",
                    "commands_exact", "sync_kind_reported", "sync_open_close", "sync_will_save", "sync_save",
@@ -174,16 +174,21 @@ class C12(core.Property):
                    "workspace_uses_advertised", "initialize_refinement", "spec_local", "non_interference",
                    "non_interference_shape", "method_of_code_code", "C12_partial", "C12_unguarded_shape",
                    "C12_refuted_shared", "C12_refuted_rename", "C12_refuted", "C12_nonvacuous",
-                   "C12_reference_agrees", "gen_tables_agree"]
+                   "C12_reference_agrees", "gen_tables_agree",
+                   "run_accepted", "history_accepted_only", "build_depends_on_accepted_only", "run_spec",
+                   "history_refines", "registered_options_stable", "C12_history", "C12_history_example"]
     coq_targets = ["Props/C12.vo", "Extract/ExtractC12.vo"]
     rule = ("a configuration = (registered methods with option objects, commands, sync kind, notebook option, "
             "client switches); every registry method alone (with and without options, empty and maximal client), "
             "pairs of methods (quick: seeded sample of 1000; thorough: all 4465), random larger subsets, every "
             "client switch that gates something in every state and at every depth of absence, position-encoding "
-            "lists in every order incl. unknown and empty, shared option objects; non-trivial = >= 2 methods, or "
+            "lists in every order incl. unknown and empty, shared option objects; registration HISTORIES (duplicates with "
+            "other / no options, refused wrong-type attempt then a valid one, commands twice, random histories) and "
+            "a second server initialised after another one in the same process; non-trivial = >= 2 methods, or "
             "an option object, or a client gate switched")
     trusted_base = ["Coq 8.16.1 kernel incl. vm_compute (witnesses, Examples, the regenerated-table comparison)",
                     "Spec/CapsSpec.v provider_of / row: the LSP 3.17 table method -> provider slot, hand-copied",
+                    "Model/Features.v (C19's model of FeatureManager.feature/command, tied to /repo by C19's check and by the history cases here)",
                     "extraction with ExtrOcamlBasic only + ocaml/c12_driver.ml + conv_io/conv_n",
                     "harness/c12.py (generators, JSON assembly from model values) and harness/gen_c12.py",
                     "modelled not verified: dict.get / `in` on the feature set, `and` on None/bool, cattrs unstructure of the result"]
@@ -432,6 +437,94 @@ class C12(core.Property):
             feats = [[m, 1] for m in ms] + [[r, 0] for r in resolves if rng.random() < 0.5]
             rng.shuffle(feats)
             cases.append(self._case(1, feats, objs, self._client(rng, "empty"), tag="shared"))
+        cases += self._history_cases(chk, e)
+        return cases
+
+    def _hcase(self, mode, hist, objs, client, sync=2, nb=None, tag="hist", before=None):
+        c = {"mode": mode, "hist": [list(a) for a in hist], "feats": [], "cmds": [], "objs": list(objs),
+             "sync": sync, "nb": nb, "client": client, "tag": tag}
+        if before:
+            c["before"] = before
+        return c
+
+    def _wrong_obj(self, rng, e, m):
+        """an options object of a class that is not the method's (refused unless structurally compatible)"""
+        t = e.opt_types.get(m)
+        pool = [k for k in ("SaveOptions", "SemanticTokensLegend", "DocumentOnTypeFormattingOptions", "HoverOptions",
+                            "DiagnosticOptions", "FileOperationRegistrationOptions")
+                if not (isinstance(t, list) and k in t)]
+        return self._obj_for(rng, rng.choice(pool))
+
+    def _history_cases(self, chk, e):
+        """(h) registration HISTORIES: some registrations are attempted more than once before initialize; a refused
+        attempt (duplicate, wrong option type) must leave no trace in what is advertised."""
+        rng = chk.rng
+        cases = []
+        with_type = [m for m in e.registry if isinstance(e.opt_types.get(m), list) and m not in NEWER_THAN_317]
+        plain = [m for m in e.registry if e.opt_types.get(m) is None]
+        for m in with_type:
+            cls = e.opt_types[m]
+            o1, o2 = self._obj_for(rng, rng.choice(cls)), self._obj_for(rng, rng.choice(cls))
+            bad = self._wrong_obj(rng, e, m)
+            cl = lambda: self._client(rng, rng.choice(["max", "max", "random"]))
+            mode = lambda: rng.choice([1, 1, 0])
+            # duplicate with other options / duplicate with options after a bare one / bare duplicate after options
+            cases.append(self._hcase(mode(), [["f", m, 1], ["f", m, 2]], [o1, o2], cl()))
+            cases.append(self._hcase(mode(), [["f", m, 0], ["f", m, 1]], [o1], cl()))
+            cases.append(self._hcase(mode(), [["f", m, 1], ["f", m, 0]], [o1], cl()))
+            # a refused wrong-type attempt, then a valid one (with / without options); and after an accepted one
+            cases.append(self._hcase(mode(), [["f", m, 1], ["f", m, 2]], [bad, o1], cl()))
+            cases.append(self._hcase(mode(), [["f", m, 1], ["f", m, 0]], [bad], cl()))
+            cases.append(self._hcase(mode(), [["f", m, 1], ["f", m, 2], ["f", m, 1]], [o1, bad], cl()))
+        # commands registered twice, interleaved with features
+        for _ in range(chk.n(40, 400)):
+            names = ["cmd%d" % rng.randint(0, 4) for _ in range(rng.randint(2, 7))]
+            hist = [["c", n] for n in names]
+            hist.insert(rng.randint(0, len(hist)), ["f", "textDocument/hover", 0])
+            cases.append(self._hcase(rng.choice([1, 0]), hist, [], self._client(rng, "empty")))
+        # random histories over a few methods with repeats, valid and wrong option objects, commands
+        for _ in range(chk.n(400, 6000)):
+            ms = rng.sample(with_type, rng.randint(1, 4)) + rng.sample(plain, rng.randint(0, 2))
+            objs, hist = [], []
+            for _ in range(rng.randint(2, 10)):
+                if rng.random() < 0.15:
+                    hist.append(["c", "cmd%d" % rng.randint(0, 3)])
+                    continue
+                m = rng.choice(ms)
+                r = rng.random()
+                if r < 0.3 or not isinstance(e.opt_types.get(m), list):
+                    hist.append(["f", m, 0])
+                elif r < 0.8:
+                    objs.append(self._obj_for(rng, rng.choice(e.opt_types[m])))
+                    hist.append(["f", m, len(objs)])
+                else:
+                    objs.append(self._wrong_obj(rng, e, m))
+                    hist.append(["f", m, len(objs)])
+            cases.append(self._hcase(rng.choice([1, 1, 0]), hist, objs, self._client(rng),
+                                     sync=rng.choice([2, 2, 1, 0]), nb=rng.choice([None, 1])))
+        # a second server of the same process, initialised after another one: nothing may carry over
+        # (default option objects, registries, option objects of the first server)
+        defaults = [("textDocument/completion", "completionItem/resolve"), ("textDocument/codeAction", "codeAction/resolve"),
+                    ("textDocument/codeLens", "codeLens/resolve"), ("textDocument/documentLink", "documentLink/resolve"),
+                    ("textDocument/inlayHint", "inlayHint/resolve"), ("workspace/symbol", "workspaceSymbol/resolve"),
+                    ("textDocument/diagnostic", "workspace/diagnostic"), ("textDocument/signatureHelp", None),
+                    ("textDocument/rename", "textDocument/prepareRename")]
+        empty = {"td": None, "ws": None, "nbdoc": False, "general": None}
+        for m, r in defaults:
+            for cm in ("empty", "max"):
+                first = self._hcase(1, [["f", m, 0]] + ([["f", r, 0]] if r else []) + [["c", "first"]], [],
+                                    self._client(rng, cm), tag="first-server")
+                cases.append(self._hcase(1, [["f", m, 0]], [], self._client(rng, cm), tag="second-server", before=[first]))
+                cases.append(self._hcase(1, [], [], empty, tag="second-server", before=[first]))
+        for _ in range(chk.n(30, 300)):
+            objs = []
+            ms = rng.sample(e.registry, rng.randint(2, 8))
+            first = self._hcase(1, [["f"] + self._feat(rng, e, m, objs, 0.5) for m in ms] + [["c", "x"]], objs,
+                                self._client(rng, "max"), tag="first-server")
+            objs2 = []
+            ms2 = rng.sample(ms, rng.randint(1, len(ms)))
+            cases.append(self._hcase(1, [["f"] + self._feat(rng, e, m, objs2, 0.5) for m in ms2], objs2,
+                                     self._client(rng), tag="second-server", before=[first]))
         return cases
 
     # ------------------------------------------------------------------ implementation
@@ -489,24 +582,47 @@ class C12(core.Property):
         client = e.client_caps(c["client"])
         sync = None if c["sync"] is None else t.TextDocumentSyncKind(c["sync"])
         nb = e.nb_option(c.get("nb"))
+        for b in c.get("before", []):      # other servers of the same process, initialised earlier
+            self._run_one(e, b)
+        hist = c.get("hist")
+        res = []
+
+        def register(target):
+            """the registration history: every attempt through the public decorators; a refused attempt
+            (any exception) is recorded and the history goes on, as a plugin loader would"""
+            if hist is None:
+                for m, o in c["feats"]:
+                    target.feature(m, objs[o - 1] if o else None)(handler)
+                for name in c["cmds"]:
+                    target.command(name)(handler)
+                return
+            for a in hist:
+                try:
+                    if a[0] == "f":
+                        target.feature(a[1], objs[a[2] - 1] if a[2] else None)(lambda *x, **k: None)
+                    else:
+                        target.command(a[1])(lambda *x, **k: None)
+                    res.append(True)
+                except Exception:
+                    res.append(False)
+
+        def out(d):
+            if hist is not None:
+                d["res"] = res
+            return d
+
         if c["mode"] == 0:
             from pygls.feature_manager import FeatureManager
             from pygls.capabilities import ServerCapabilitiesBuilder
             fm = FeatureManager(None, e.conv)
-            for m, o in c["feats"]:
-                fm.feature(m, objs[o - 1] if o else None)(handler)
-            for name in c["cmds"]:
-                fm.command(name)(handler)
+            register(fm)
             caps = ServerCapabilitiesBuilder(client, set(fm.features.keys()), fm.feature_options,
                                              list(fm.commands.keys()), sync, nb).build()
-            return {"caps": e.conv.unstructure(caps), "ws": None}
+            return out({"caps": e.conv.unstructure(caps), "ws": None})
         from pygls.lsp.server import LanguageServer
         kw = {} if c["sync"] == 2 else {"text_document_sync_kind": sync}   # 2 = the default (Incremental)
         srv = LanguageServer("c12", "0", notebook_document_sync=nb, converter_factory=lambda: e.conv, **kw)
-        for m, o in c["feats"]:
-            srv.feature(m, objs[o - 1] if o else None)(handler)
-        for name in c["cmds"]:
-            srv.command(name)(handler)
+        register(srv)
         p = srv.protocol
         w = Rec()
         p.set_writer(w)
@@ -538,7 +654,7 @@ class C12(core.Property):
                 "contentChanges": [{"range": {"start": {"line": 0, "character": 4},
                                               "end": {"line": 0, "character": 4}}, "text": "#"}]}})
             probe = self._classify(e, srv.workspace.get_text_document(uri).source)
-        return {"caps": caps, "ws": [adv, wsenc, probe]}
+        return out({"caps": caps, "ws": [adv, wsenc, probe]})
 
     _probe_table = None
     def _classify(self, e, text):
@@ -558,18 +674,53 @@ class C12(core.Property):
         return sorted(k for k, v in C12._probe_table.items() if v == text)
 
     # ------------------------------------------------------------------ model
+    @staticmethod
+    def _cmd_ids(c):
+        """command names of a history -> 1.. in order of first appearance"""
+        ids = {}
+        for a in c["hist"]:
+            if a[0] == "c" and a[1] not in ids:
+                ids[a[1]] = len(ids) + 1
+        return ids
+
+    def _oracle(self, e, m, obj):
+        """what get_method_options_type + is_instance (lsprotocol / cattrs: the oracle of the model) say about
+        this options object for this method: 0 no type, 1 valid, 2 wrong type, 3 unknown method, 4 raises"""
+        from pygls.lsp import get_method_options_type, is_instance
+        try:
+            t = get_method_options_type(m)
+        except Exception:
+            return 3
+        if t is None:
+            return 0
+        try:
+            return 1 if is_instance(e.conv, obj, t) else 2
+        except Exception:
+            return 4
+
     def model_input(self, c):
         e = env()
-        toks = ["caps", c["mode"], len(c["feats"])]
-        for m, o in c["feats"]:
-            toks += [e.method_code(m), o]
+        if "hist" in c:
+            ids = self._cmd_ids(c)
+            toks = ["hist", c["mode"], len(c["hist"])]
+            for a in c["hist"]:
+                if a[0] == "f":
+                    chk = self._oracle(e, a[1], e.mk(c["objs"][a[2] - 1])) if a[2] else 0
+                    toks += [0, e.method_code(a[1]), a[2], chk]
+                else:
+                    toks += [1, ids[a[1]], 0, 0]
+        else:
+            toks = ["caps", c["mode"], len(c["feats"])]
+            for m, o in c["feats"]:
+                toks += [e.method_code(m), o]
         toks.append(len(c["objs"]))
         for spec in c["objs"]:
             o = e.mk(spec)
             toks += [tri(getattr(o, "resolve_provider", None)), tri(getattr(o, "workspace_diagnostics", None)),
                      1 if isinstance(o, e.types.SemanticTokensRegistrationOptions) else 0]
-        toks.append(len(c["cmds"]))
-        toks += list(range(1, len(c["cmds"]) + 1))
+        if "hist" not in c:
+            toks.append(len(c["cmds"]))
+            toks += list(range(1, len(c["cmds"]) + 1))
         toks.append(0 if c["sync"] is None else c["sync"] + 1)
         toks.append(0 if c.get("nb") is None else c["nb"] + 1)
         cl = c["client"]
@@ -661,7 +812,8 @@ class C12(core.Property):
             return ("v", next(it))
         if tag == 8:
             n = next(it)
-            return ("v", {"commands": [c["cmds"][next(it) - 1] for _ in range(n)]})
+            names = c["cmds"] if "hist" not in c else list(self._cmd_ids(c))
+            return ("v", {"commands": [names[next(it) - 1] for _ in range(n)]})
         if tag == 9:
             return ("v", e.conv.unstructure(e.nb_option(next(it))))
         if tag == 10:
@@ -702,6 +854,20 @@ class C12(core.Property):
         if toks and toks[0] == "DRIVER-ERROR":
             raise RuntimeError("driver: " + " ".join(toks))
         it = iter([int(x) for x in toks])
+        mres = sres = None
+        if "hist" in c:
+            mres = [bool(next(it)) for _ in range(next(it))]
+            # the reference's view of the attempts: accepted iff valid and no earlier valid attempt for the name
+            sres, seen = [], set()
+            for a in c["hist"]:
+                if a[0] == "f":
+                    valid = (not a[2]) or self._oracle(e, a[1], e.mk(c["objs"][a[2] - 1])) in (0, 1)
+                else:
+                    valid = True
+                ok = valid and (a[0], a[1]) not in seen
+                if ok:
+                    seen.add((a[0], a[1]))
+                sres.append(ok)
         mvals = self._read_values(it, c, e)
         svals = self._read_values(it, c, e)
         guard = bool(next(it))
@@ -715,7 +881,16 @@ class C12(core.Property):
             return [enc, enc, [enc] if c["sync"] == 2 else None]
         M = {"caps": self._assemble(mvals), "ws": wsobs(mws)}
         S = {"caps": self._assemble(svals), "ws": wsobs(sws)}
-        if any(m in NEWER_THAN_317 for m, _ in c["feats"]):
+        if mres is not None:
+            M["res"], S["res"] = mres, sres
+        methods = [a[1] for a in c["hist"] if a[0] == "f"] if "hist" in c else [m for m, _ in c["feats"]]
+        # an object of a class that is NOT the method's options class but passes pygls' structural check
+        # (finding #27, recorded under C19): not an "option object valid for the method" - observed only
+        nonnominal = "hist" in c and any(
+            a[0] == "f" and a[2] and isinstance(e.opt_types.get(a[1]), list)
+            and c["objs"][a[2] - 1]["cls"] not in e.opt_types[a[1]]
+            and self._oracle(e, a[1], e.mk(c["objs"][a[2] - 1])) == 1 for a in c["hist"])
+        if nonnominal or any(m in NEWER_THAN_317 for m in methods):
             return {"M": M, "S": None, "guard": False, "klass": None}
         return {"M": M, "S": S, "guard": guard, "klass": klass}
 
@@ -788,9 +963,21 @@ class C12(core.Property):
     def nontrivial(self, c):
         cl = c["client"]
         switched = any(cl.get(k) for k in ("td", "ws", "nbdoc", "general"))
-        return len(c["feats"]) >= 2 or bool(c["objs"]) or switched
+        return len(c.get("hist") or c["feats"]) >= 2 or bool(c["objs"]) or switched
 
     def shrink(self, c):
+        if "before" in c:
+            d = json.loads(json.dumps(c)); del d["before"]
+            yield d
+        if "hist" in c:
+            for i in range(len(c["hist"])):
+                d = json.loads(json.dumps(c)); del d["hist"][i]
+                yield d
+            for k in ("td", "ws", "general"):
+                if c["client"].get(k) is not None:
+                    d = json.loads(json.dumps(c)); d["client"][k] = None
+                    yield d
+            return
         for i in range(len(c["feats"])):
             d = json.loads(json.dumps(c)); del d["feats"][i]
             yield d
@@ -819,7 +1006,7 @@ class C12(core.Property):
             d[k] = d.get(k, 0) + 1
             k = "mode:%d" % c["mode"]
             d[k] = d.get(k, 0) + 1
-            n = len(c["feats"])
+            n = len(c.get("hist") or c["feats"])
             k = "methods:" + ("0" if n == 0 else "1" if n == 1 else "2" if n == 2 else "3-9" if n < 10 else "10+")
             d[k] = d.get(k, 0) + 1
             if c["objs"]:
